@@ -113,7 +113,7 @@ class Reference:
                 self.outputs = [v.value] if isinstance(v, ast.Constant) else [e.value for e in v.elts]
 
     def names(self):
-        return list(self.series) + list(self.products)
+        return list(self.series) + [p for p in self.products if not p.startswith("\x00")]
 
     # -- evaluation ------------------------------------------------------------------------------
     def element(self, name, index):
@@ -227,28 +227,45 @@ class Reference:
         raise NotImplementedError(ast.dump(node)[:120])
 
     def _product(self, terms, index):
+        """Cauchy product. Evaluation order mirrors the documented intent of the library ("only query the highest order of a
+        series if the other series has some 0th order terms"): products of more than two factors associate to the left, and
+        in each two-factor term the cheaper (lower-order) factor is evaluated first and the term is skipped when it is absent.
+        This only matters for deciding well-foundedness (where a cycle is hit), never for values."""
+        if len(terms) > 2:
+            left = "\x00" + " @ ".join(terms[:-1])
+            if left not in self.products:
+                self.products[left] = list(terms[:-1])
+            return self._product2(left, terms[-1], index)
+        return self._product2(terms[0], terms[1], index)
+
+    def _product2(self, first, second, index):
         i, j, *order = index
-        k = len(terms)
         acc = None
-        for mids in itertools.product(range(self.nb), repeat=k - 1):
-            chain = (i, *mids, j)
-            for comp in _compositions(tuple(order), k):
-                # lazy: lower total order first, so that well-founded recurrences terminate
-                idxs = [(chain[t], chain[t + 1], *comp[t]) for t in range(k)]
-                vals = [None] * k
-                ok = True
-                for t in sorted(range(k), key=lambda t: sum(comp[t])):
-                    v = self.element(terms[t], idxs[t])
-                    if v is None:
-                        ok = False
-                        break
-                    vals[t] = v
-                if not ok:
-                    continue
-                term = vals[0]
-                for v in vals[1:]:
-                    term = symc.mm(term, v)
-                acc = _add(acc, term)
+
+        def cost(o):
+            c = 1
+            for x in o:
+                c *= (x + 1) ** 2
+            return c
+
+        for mid in range(self.nb):
+            for comp in _compositions(tuple(order), 2):
+                i1, i2 = (i, mid, *comp[0]), (mid, j, *comp[1])
+                if cost(comp[0]) <= cost(comp[1]):
+                    a = self.element(first, i1)
+                    if a is None:
+                        continue
+                    b = self.element(second, i2)
+                    if b is None:
+                        continue
+                else:
+                    b = self.element(second, i2)
+                    if b is None:
+                        continue
+                    a = self.element(first, i1)
+                    if a is None:
+                        continue
+                acc = _add(acc, symc.mm(a, b))
         return acc
 
 
